@@ -12,10 +12,17 @@
 package main
 
 import (
+	"bufio"
+	"context"
+	"encoding/json"
+	"flag"
 	"fmt"
 	"os"
+	"os/exec"
+	"regexp"
 	"strconv"
 	"strings"
+	"time"
 
 	"go.uber.org/zap"
 
@@ -186,13 +193,23 @@ func (w *world) apply(op string, sc scenario) error {
 	return nil
 }
 
+// announce prints the scenario header; every executed op follows as an "OP" line, so that the parent can rebuild the
+// replay line of a scenario during which the child died
+func announce(sc scenario) {
+	h := sc
+	h.ops = nil
+	fmt.Println("BEGIN " + h.String())
+}
+
 func runScenario(root string, sc scenario) outcome {
+	announce(sc)
 	w, err := newWorld(root, sc.workers, sc.bulks)
 	if err != nil {
 		return outcome{err: err}
 	}
 	o := outcome{w: w}
 	for _, op := range sc.ops {
+		fmt.Println("OP " + op)
 		if err := w.apply(op, sc); err != nil {
 			o.err = fmt.Errorf("op %s: %w", op, err)
 			return o
@@ -207,13 +224,15 @@ func runScenario(root string, sc scenario) outcome {
 		// nobody is left who could call Done: ask the real WaitGroup
 		o.hangOK = !returnsWithin(w.p.WaitWriteIdle, 3)
 	}
+	_ = w.failedW
 	return o
 }
 
 // ---------------------------------------------------------------- the property on the real answers
 
 type finding struct {
-	class, what string
+	Class string `json:"class"`
+	What  string `json:"what"`
 }
 
 func checkProperty(sc scenario, o outcome) []finding {
@@ -340,7 +359,7 @@ func checkProperty(sc scenario, o outcome) []finding {
 
 func fullIdx(k int, nq int) []string { // index worker of bulk k from aidx.start to the end: block pos ids toks queue*nq stats done release
 	var ops []string
-	for i := 0; i < 4+nq+3; i++ {
+	for i := 0; i < 4+nq+2; i++ {
 		ops = append(ops, fmt.Sprintf("go:idx%d", k))
 	}
 	return ops
@@ -426,8 +445,10 @@ func genScenario(root string, rng *vh.RNG, name string) (scenario, outcome) {
 	}
 	o := outcome{w: w}
 	nextBulk, nReaders := 0, 0
+	announce(sc)
 	doOp := func(op string) bool {
 		sc.ops = append(sc.ops, op)
+		fmt.Println("OP " + op)
 		if err := w.apply(op, sc); err != nil {
 			o.err = fmt.Errorf("op %s: %w", op, err)
 			return false
@@ -530,70 +551,223 @@ func genScenario(root string, rng *vh.RNG, name string) (scenario, outcome) {
 
 // ---------------------------------------------------------------- main
 
-func main() {
-	if len(os.Args) > 1 && os.Args[1] == "race-child" {
-		raceChild(os.Args[2:])
-		return
+// scResult is what the scenario child reports for one scenario (one "END" line).
+type scResult struct {
+	Name    string    `json:"name"`
+	Line    string    `json:"line"`
+	Workers int       `json:"workers"`
+	Err     string    `json:"err"`
+	PF      string    `json:"pf"`
+	PFImpl  string    `json:"pf_impl"`
+	PFNT    bool      `json:"pf_nt"`
+	AC      string    `json:"ac"`
+	ACImpl  string    `json:"ac_impl"`
+	ACNT    bool      `json:"ac_nt"`
+	Finds   []finding `json:"finds"`
+	Notes   []string  `json:"notes"`
+}
+
+func summarize(sc scenario, out outcome) scResult {
+	r := scResult{Name: sc.name, Line: sc.String(), Workers: sc.workers}
+	if out.w != nil {
+		defer out.w.close()
 	}
-	o := vh.ParseFlags()
+	if out.err != nil {
+		r.Err = out.err.Error()
+		return r
+	}
+	w := out.w
+	for _, l := range w.pf {
+		if l == "sb" || strings.HasPrefix(l, "st") {
+			r.PFNT = true
+		}
+	}
+	for i, l := range w.ac {
+		if strings.HasPrefix(l, "rn/") {
+			for _, m := range w.ac[i:] {
+				if strings.HasPrefix(m, "wq/") || strings.HasPrefix(m, "wp/") {
+					r.ACNT = true
+				}
+			}
+		}
+	}
+	r.PF, r.PFImpl = "pfrac "+vh.JoinStrs(w.pf, ","), w.pfImpl()
+	if len(w.ac) > 0 {
+		r.AC, r.ACImpl = "aconc "+strings.Join(w.ac, "|"), w.acImpl()
+	}
+	r.Finds = checkProperty(sc, out)
+	r.Notes = w.notes
+	return r
+}
+
+// scenario number i of a run: the scripted ones first, then seeded random ones (each from its own generator state,
+// so that a child restarted after a crash continues with the same scenarios)
+func scenarioRNG(seed int64, i int) *vh.RNG {
+	return vh.NewRNG(int64(vh.NewRNG(seed*1000003+int64(i)).U64() >> 1))
+}
+
+func scChild(args []string) {
+	fs := flag.NewFlagSet("sc-child", flag.ExitOnError)
+	seed := fs.Int64("seed", 1, "")
+	from := fs.Int("from", 0, "")
+	to := fs.Int("to", 0, "")
+	replay := fs.String("replay", "", "")
+	fs.Parse(args)
 	logger.SetLevel(zap.FatalLevel)
-	rep := vh.NewReport("C07", o)
 	root, err := os.MkdirTemp("", "c07-")
 	if err != nil {
 		fmt.Fprintln(os.Stderr, err)
 		os.Exit(3)
 	}
 	defer os.RemoveAll(root)
+	emit := func(r scResult) {
+		b, _ := json.Marshal(r)
+		fmt.Println("END " + string(b))
+	}
+	if *replay != "" {
+		lines, err := vh.ReadReplay(*replay)
+		if err != nil {
+			fmt.Fprintln(os.Stderr, err)
+			os.Exit(3)
+		}
+		n := 0
+		for _, l := range lines {
+			sc, err := parseScenario(l)
+			if err != nil {
+				continue
+			}
+			if n >= *from {
+				emit(summarize(sc, runScenario(root, sc)))
+			}
+			n++
+		}
+		return
+	}
+	scr := scripted()
+	for i := *from; i < *to; i++ {
+		if i < len(scr) {
+			emit(summarize(scr[i], runScenario(root, scr[i])))
+			continue
+		}
+		sc, out := genScenario(root, scenarioRNG(*seed, i), fmt.Sprintf("random-%d", i-len(scr)))
+		emit(summarize(sc, out))
+	}
+}
+
+// runChildren runs the scenarios [0,total) (or those of a replay file) in child processes; a child that dies is an
+// observation about the scenario it was running, and the rest continues in a new child.
+func runChildren(o vh.Opts, total int, handle func(scResult), crashed func(line, what string)) {
+	self, _ := os.Executable()
+	next := 0
+	for restarts := 0; (next < total || (o.Replay != "" && restarts == 0)) && restarts < 20; restarts++ {
+		args := []string{"sc-child", "-seed", fmt.Sprint(o.Seed), "-from", fmt.Sprint(next), "-to", fmt.Sprint(total)}
+		if o.Replay != "" {
+			args = append(args, "-replay", o.Replay)
+		}
+		ctx, cancel := context.WithTimeout(context.Background(), 20*time.Minute)
+		cmd := exec.CommandContext(ctx, self, args...)
+		var stderr strings.Builder
+		cmd.Stderr = &stderr
+		stdout, _ := cmd.StdoutPipe()
+		if err := cmd.Start(); err != nil {
+			cancel()
+			crashed("", "cannot start the scenario child: "+err.Error())
+			return
+		}
+		sc := bufio.NewScanner(stdout)
+		sc.Buffer(make([]byte, 1<<20), 1<<28)
+		header, ops, open := "", []string(nil), false
+		for sc.Scan() {
+			l := sc.Text()
+			switch {
+			case strings.HasPrefix(l, "BEGIN "):
+				header, ops, open = strings.TrimPrefix(l, "BEGIN "), nil, true
+			case strings.HasPrefix(l, "OP "):
+				ops = append(ops, strings.TrimPrefix(l, "OP "))
+			case strings.HasPrefix(l, "END "):
+				var r scResult
+				if json.Unmarshal([]byte(strings.TrimPrefix(l, "END ")), &r) == nil {
+					handle(r)
+				}
+				open = false
+				next++
+			}
+		}
+		err := cmd.Wait()
+		cancel()
+		if !open {
+			if err != nil && next < total {
+				crashed("", "scenario child failed between scenarios: "+err.Error()+" | "+lastLines(stderr.String(), 8))
+				return
+			}
+			if o.Replay != "" {
+				return
+			}
+			continue
+		}
+		// died inside a scenario
+		line := strings.TrimSuffix(header, "ops=") + "ops=" + strings.Join(ops, ",")
+		crashed(line, lastLines(stderr.String(), 14))
+		next++
+		if o.Replay != "" {
+			return
+		}
+	}
+}
+
+func main() {
+	if len(os.Args) > 1 && os.Args[1] == "race-child" {
+		raceChild(os.Args[2:])
+		return
+	}
+	if len(os.Args) > 1 && os.Args[1] == "sc-child" {
+		scChild(os.Args[2:])
+		return
+	}
+	o := vh.ParseFlags()
+	logger.SetLevel(zap.FatalLevel)
+	rep := vh.NewReport("C07", o)
 
 	chPF := vh.NewChannel("pfrac.trace", "real proxyFrac driven through its c07.pf.* points by a seeded scheduler (one thread runs at a time): the logged critical sections must be a path of SV.ProxyFrac.step and the final (active, sealed, readonly, released, suicided, counts) must agree; non-trivial = the run contains a seal or a suicide overlapping appends or readers")
 	chAC := vh.NewChannel("aconc.trace", "the same runs seen from the active index: every index-worker and data-provider step with the value the hook saw (block index, ids kept, LIDs queued, |mapping|, |ids|, |token list|) must be a path of SV.ActiveConc.step and the model must predict every search result and fetch outcome; non-trivial = a reader overlaps an unfinished bulk")
-	orc := vh.NewOracle("sched.property", "C07 on the scheduled runs: returned ids belong to submitted bulks, are in range and satisfy the query; fetches neither fail nor miss an id indexed before the provider; every acknowledged document is in the sealed fraction byte for byte; no thread is left that can never finish; non-trivial = as for the channels")
+	orc := vh.NewOracle("sched.property", "C07 on the scheduled runs (in child processes): returned ids belong to submitted bulks, are in range and satisfy the query; fetches neither fail nor miss an id indexed before the provider; every acknowledged document is in the sealed fraction byte for byte; no thread is left that can never finish; the process does not die; non-trivial = as for the channels")
 
-	handle := func(sc scenario, out outcome) {
-		line := sc.String()
-		if out.w != nil {
-			defer out.w.close()
-		}
-		if out.err != nil {
-			chPF.Error = "scenario " + sc.name + ": " + out.err.Error() + " | " + line
+	seenClass := map[string]bool{}
+	handle := func(r scResult) {
+		if r.Err != "" {
+			if chPF.Error == "" {
+				chPF.Error = "scenario " + r.Name + ": " + r.Err + " | " + r.Line
+			}
 			return
 		}
-		w := out.w
-		overlap := false
-		for _, l := range w.pf {
-			if l == "sb" || strings.HasPrefix(l, "st") {
-				overlap = true
-			}
+		tags := []string{"scenario=" + strings.SplitN(r.Name, "-", 2)[0], fmt.Sprintf("workers=%d", r.Workers)}
+		chPF.Add(r.PF, r.PFImpl, r.PFNT, tags...)
+		if r.AC != "" {
+			chAC.Add(r.AC, r.ACImpl, r.ACNT, tags...)
 		}
-		rdOverlap := false
-		for i, l := range w.ac {
-			if strings.HasPrefix(l, "rn/") {
-				for _, m := range w.ac[i:] {
-					if strings.HasPrefix(m, "wq/") || strings.HasPrefix(m, "wp/") {
-						rdOverlap = true
-					}
-				}
-			}
-		}
-		tags := []string{"scenario=" + strings.SplitN(sc.name, "-", 2)[0], fmt.Sprintf("workers=%d", sc.workers)}
-		chPF.Add("pfrac "+vh.JoinStrs(w.pf, ","), w.pfImpl(), overlap, append(tags, fmt.Sprintf("pf.len<=%d", (len(w.pf)/10+1)*10))...)
-		if len(w.ac) > 0 {
-			chAC.Add("aconc "+strings.Join(w.ac, "|"), w.acImpl(), rdOverlap, tags...)
-		}
-		fs := checkProperty(sc, out)
-		orc.Case(line, overlap || rdOverlap, fmt.Sprintf("findings=%d", len(fs)))
-		seen := map[string]bool{}
-		for _, f := range fs {
-			if seen[f.class] {
+		orc.Case(r.Line, r.PFNT || r.ACNT, fmt.Sprintf("findings=%d", len(r.Finds)))
+		for _, f := range r.Finds {
+			if seenClass[f.Class] {
 				continue
 			}
-			seen[f.class] = true
-			rep.Violate(vh.Violation{Site: siteOf(f.class), Class: f.class, What: f.what, Replay: []string{line}})
+			seenClass[f.Class] = true
+			rep.Violate(vh.Violation{Site: siteOf(f.Class), Class: f.Class, What: f.What, Replay: []string{r.Line}})
 		}
-		for _, n := range w.notes {
+		for _, n := range r.Notes {
 			if len(rep.Notes) < 10 {
-				rep.Note("%s: %s", sc.name, n)
+				rep.Note("%s: %s", r.Name, n)
 			}
+		}
+	}
+	crashed := func(line, what string) {
+		if line == "" {
+			orc.Error = what
+			return
+		}
+		orc.Case(line, true, "crash")
+		if !seenClass["crash"] {
+			seenClass["crash"] = true
+			rep.Violate(vh.Violation{Site: crashSite(what), Class: "process-crash", What: "the process died during the scenario: " + what, Replay: []string{line}})
 		}
 	}
 
@@ -603,33 +777,37 @@ func main() {
 			fmt.Fprintln(os.Stderr, err)
 			os.Exit(3)
 		}
+		hasSc := false
 		for _, l := range lines {
 			if strings.HasPrefix(l, "race ") {
 				runRace(rep, o, l)
-				continue
+			} else if strings.HasPrefix(l, "sc ") {
+				hasSc = true
 			}
-			sc, err := parseScenario(l)
-			if err != nil {
-				continue
-			}
-			handle(sc, runScenario(root, sc))
+		}
+		if hasSc {
+			runChildren(o, 0, handle, crashed)
 		}
 	} else {
-		for _, sc := range scripted() {
-			handle(sc, runScenario(root, sc))
-		}
-		rng := vh.NewRNG(int64(vh.NewRNG(o.Seed).U64() >> 1)) // consecutive seeds of vh.NewRNG are consecutive states: hash first
-		n := o.Pick(300, 6000)
-		for i := 0; i < n; i++ {
-			sc, out := genScenario(root, rng.Fork(), fmt.Sprintf("random-%d", i))
-			handle(sc, out)
-		}
+		runChildren(o, len(scripted())+o.Pick(300, 6000), handle, crashed)
 		runRace(rep, o, "")
 	}
 	rep.AddChannel(chPF, o.Driver)
 	rep.AddChannel(chAC, o.Driver)
 	rep.AddOracle(orc)
 	rep.Write(o.Out)
+}
+
+var repoFrame = regexp.MustCompile(`github\.com/ozontech/seq-db/([a-zA-Z0-9_/]+)\.([^\s(]+)\(`)
+
+// crashSite: the first frame of the repository in the stack of the dying child
+func crashSite(stderr string) string {
+	for _, m := range repoFrame.FindAllStringSubmatch(stderr, -1) {
+		if !strings.HasPrefix(m[1], "logger") && !strings.HasPrefix(m[1], "verifhook") {
+			return m[1] + ":" + m[2]
+		}
+	}
+	return "process"
 }
 
 func siteOf(class string) string {
